@@ -32,4 +32,6 @@ LensSix == <<5941>>          \* 6 segments (5*1188 + 1)
 LensSixExact == <<5940>>     \* 6 segments, exact multiple: last one empty
 LensTwoTwo == <<2376, 1189>>
 LensBig == <<77856768, 1>>   \* 65536 * 1188: refused
+LensWrap == <<6, 1>>         \* with P = 2, MaxSegIdx = 3: four segments (the last one empty) - the largest message the sender accepts
+LensWrapOver == <<8>>        \* with P = 2, MaxSegIdx = 3: five segments - refused
 =============================================================================
